@@ -641,3 +641,6 @@ Definition c18_children_check (x : tgraph * Z * list Z) : bool :=
   same_set rel (filter (fun c => negb (is_cancelled g c) &&
                                  (tg_terminal g c || forallb (tg_complete g) (tg_parents g c))) (tg_children g t))
   && znodup rel.
+Definition c18_no_plan_ahead_applies (x : tgraph * sched_opts * list Z) : bool :=
+  let '(g, o, fr) := x in
+  (so_lookahead o =? 0) && negb (so_retract o) && negb (so_release_tg o) && frontier_sane g (so_time o).
